@@ -26,4 +26,26 @@ def warning_skeletons(ctx):
             arg = subst_locals(c.args[0], fi.node, depth=3)
             sk = message_skeleton(ctx, fi.module, arg)
             out.setdefault(sk, []).append((fi, c))
+    # advisories handed over as a list: `warnings.extend(g(...))` - the messages g appends to the list it returns are
+    # advisories of the conversion as well (an extracted helper keeps its skeletons, a new check brings new ones)
+    for fi in repo.all_functions():
+        if fi.fq not in reach:
+            continue
+        for c in walk_own(fi.node):
+            if not (isinstance(c, ast.Call) and isinstance(c.func, ast.Attribute) and c.func.attr in ("extend", "__iadd__") and c.args and "warning" in norm(c.func.value).lower()):
+                continue
+            src = c.args[0]
+            if not isinstance(src, ast.Call):
+                continue
+            res = repo.resolve_dotted(fi.module, src.func) if isinstance(src.func, ast.Name | ast.Attribute) else None
+            if not res or res[0] != "func":
+                continue
+            g = res[1]
+            returned = {n.id for x in walk_own(g.node) if isinstance(x, ast.Return) and x.value is not None for n in ast.walk(x.value) if isinstance(n, ast.Name)}
+            for c2 in walk_own(g.node):
+                if isinstance(c2, ast.Call) and isinstance(c2.func, ast.Attribute) and c2.func.attr == "append" and c2.args and isinstance(c2.func.value, ast.Name) and c2.func.value.id in returned \
+                        and "warning" not in c2.func.value.id.lower():
+                    arg = subst_locals(c2.args[0], g.node, depth=3)
+                    sk = message_skeleton(ctx, g.module, arg)
+                    out.setdefault(sk, []).append((g, c2))
     return out
